@@ -21,6 +21,8 @@ inductive Val {α : Type} (ops : Ops α) (body : Nat → Expr α) : Expr α → 
   | atStart0 (a b : Expr α) (v : α) : Val ops body a 0 v → Val ops body (.atStart a b) 0 v
   | atStartS (a b : Expr α) (k : Nat) (v : α) :
       Val ops body b (k + 1) v → Val ops body (.atStart a b) (k + 1) v
+  | lookup (p : Nat) (a : Expr α) (k : Nat) (x : α) :
+      Val ops body a k x → Val ops body (.lookup p a) k (ops.lookup p x)
 
 /-- what a freshly built model with definitions `body` yields for `key`. -/
 def Fresh {α : Type} (ops : Ops α) (body : Nat → Expr α) (key : Key) (v : α) : Prop :=
@@ -37,6 +39,7 @@ theorem Val.det {α : Type} {ops : Ops α} {body : Nat → Expr α} {e : Expr α
   | max0 a k x _ ih => cases h2 with | max0 _ _ x' h => rw [ih h]
   | atStart0 a b v _ ih => cases h2 with | atStart0 _ _ _ h => exact ih h
   | atStartS a b k v _ ih => cases h2 with | atStartS _ _ _ _ h => exact ih h
+  | lookup p a k x _ ih => cases h2 with | lookup _ _ _ x' h => rw [ih h]
 
 /-- The memo invariant: every entry equals the fresh value under the current definitions. -/
 def MemoInv {α : Type} (ops : Ops α) (body : Nat → Expr α) (m : Memo α) : Prop :=
@@ -127,6 +130,18 @@ theorem evalE_sound {α : Type} (ops : Ops α) (body : Nat → Expr α)
   | rnd =>
       intro k m hm
       exact ⟨hm, by intro v h; simp [evalE] at h⟩
+  | lookup p a iha =>
+      intro k m hm
+      have ha := iha k m hm
+      rcases hea : evalE ops ev a k m with ⟨m1, ra⟩
+      rw [hea] at ha
+      cases ra with
+      | none => simp only [evalE, hea]; exact ⟨ha.1, by intro v h; simp at h⟩
+      | some x =>
+          simp only [evalE, hea]
+          refine ⟨ha.1, ?_⟩
+          intro v h; simp at h; subst h
+          exact Val.lookup p a k x (ha.2 x rfl)
 
 /-- `memoize` is sound for every fuel: it keeps the memo invariant and returns the fresh value. -/
 theorem evalK_sound {α : Type} (ops : Ops α) (body : Nat → Expr α) :
@@ -152,42 +167,95 @@ theorem evalK_sound {α : Type} (ops : Ops α) (body : Nat → Expr α) :
               refine ⟨memoInv_cons he.1 hv, ?_⟩
               intro w h; simp at h; subst h; exact hv
 
-/-- Reachable states: the memo invariant holds after every history, given the cache-reset facts. -/
-def StInv {α : Type} (ops : Ops α) (s : St α) : Prop := MemoInv ops s.body s.memo
+/-- Reachable states: the memo invariant holds after every history, given the cache-reset facts —
+with respect to the points tables of the state (`Ops.withLk`). -/
+def StInv {α : Type} (ops : Ops α) (s : St α) : Prop := MemoInv (ops.withLk s.lk) s.body s.memo
 
+/-- one operation: from a state that is dirty (`d = true`: points were written, the memo may be stale) or
+satisfies the invariant, to the next, along a settled history. -/
 theorem inv_step {α : Type} (c : Cfg) (hi : c.initialValueResetsCache = true)
     (ha : c.addEquationResetsCache = true) (ops : Ops α) (s : St α) (op : Op α)
-    (h : StInv ops s) : StInv ops (step c ops s op) := by
+    (h : StInv ops s) (hop : ∀ p f, op ≠ Op.setPoints p f) : StInv ops (step c ops s op) := by
   cases op with
   | setEq n e => exact memoInv_nil _ _
   | setInit n e => simp only [step, hi, StInv]; exact memoInv_nil _ _
   | addEq n e => simp only [step, ha, StInv]; exact memoInv_nil _ _
   | reset => exact memoInv_nil _ _
-  | eval n k fuel => exact (evalK_sound ops s.body fuel s.memo (n, k) h).1
+  | eval n k fuel => exact (evalK_sound (ops.withLk s.lk) s.body fuel s.memo (n, k) h).1
+  | setPoints p f => exact absurd rfl (hop p f)
+
+/-- every settled history keeps the invariant: `d` tells whether points were written since the memo was last
+emptied; an evaluation only happens when `d = false`. -/
+theorem inv_run_from {α : Type} (c : Cfg) (hi : c.initialValueResetsCache = true)
+    (ha : c.addEquationResetsCache = true) (ops : Ops α) (h : List (Op α)) :
+    ∀ (d : Bool) (s : St α), (d = false → StInv ops s) → settledFrom d h = true →
+      StInv ops (run c ops s h) := by
+  induction h with
+  | nil =>
+      intro d s hs hset
+      simp only [settledFrom, Bool.not_eq_true'] at hset
+      exact hs hset
+  | cons op rest ih =>
+      intro d s hs hset
+      simp only [run, List.foldl_cons]
+      cases op with
+      | setPoints p f =>
+          simp only [settledFrom] at hset
+          exact ih true _ (by intro h; cases h) hset
+      | eval n k fuel =>
+          simp only [settledFrom, Bool.and_eq_true, Bool.not_eq_true'] at hset
+          exact ih d _ (fun _ => inv_step c hi ha ops s _ (hs hset.1) (by intro p f h; cases h)) hset.2
+      | setEq n e =>
+          simp only [settledFrom] at hset
+          exact ih false _ (fun _ => memoInv_nil _ _) hset
+      | setInit n e =>
+          simp only [settledFrom] at hset
+          exact ih false _ (fun _ => by simp only [step, hi, StInv]; exact memoInv_nil _ _) hset
+      | addEq n e =>
+          simp only [settledFrom] at hset
+          exact ih false _ (fun _ => by simp only [step, ha, StInv]; exact memoInv_nil _ _) hset
+      | reset =>
+          simp only [settledFrom] at hset
+          exact ih false _ (fun _ => memoInv_nil _ _) hset
 
 theorem inv_run {α : Type} (c : Cfg) (hi : c.initialValueResetsCache = true)
-    (ha : c.addEquationResetsCache = true) (ops : Ops α) (h : List (Op α)) :
-    ∀ s : St α, StInv ops s → StInv ops (run c ops s h) := by
-  induction h with
-  | nil => intro s hs; exact hs
-  | cons op rest ih => intro s hs; exact ih _ (inv_step c hi ha ops s op hs)
+    (ha : c.addEquationResetsCache = true) (ops : Ops α) (h : List (Op α)) (hset : settled h = true) :
+    ∀ s : St α, StInv ops s → StInv ops (run c ops s h) :=
+  fun s hs => inv_run_from c hi ha ops h false s (fun _ => hs) hset
 
-/-- **Never stale** (clause 1): after any history of edits, cache resets and evaluations on a model,
-whatever `element(t_k)` returns is the value a freshly built model with the final definitions yields. -/
+/-- **Never stale** (clause 1): after any history of edits, cache resets, points edits (settled: followed by a
+cache reset or another edit before the next evaluation) and evaluations on a model, whatever `element(t_k)`
+returns is the value a freshly built model with the final definitions and points tables yields.
+(Histories without points edits are always settled: the wave-1 statement is the special case.) -/
 def C08_seq (c : Cfg) : Prop :=
   ∀ (α : Type) (ops : Ops α) (s0 : St α), s0.memo = [] →
-  ∀ (h : List (Op α)) (n k f1 f2 : Nat) (v w : α),
+  ∀ (h : List (Op α)), settled h = true → ∀ (n k f1 f2 : Nat) (v w : α),
     query ops (run c ops s0 h) n k f1 = some v →
     query ops { run c ops s0 h with memo := [] } n k f2 = some w → v = w
 
 theorem C08_fresh (c : Cfg) (hi : c.initialValueResetsCache = true)
     (ha : c.addEquationResetsCache = true) : C08_seq c := by
-  intro α ops s0 h0 h n k f1 f2 v w hv hw
+  intro α ops s0 h0 h hset n k f1 f2 v w hv hw
   have hinv : StInv ops (run c ops s0 h) :=
-    inv_run c hi ha ops h s0 (by simp only [StInv, h0]; exact memoInv_nil _ _)
-  have h1 := (evalK_sound ops (run c ops s0 h).body f1 (run c ops s0 h).memo (n, k) hinv).2 v hv
-  have h2 := (evalK_sound ops (run c ops s0 h).body f2 [] (n, k) (memoInv_nil _ _)).2 w hw
+    inv_run c hi ha ops h hset s0 (by simp only [StInv, h0]; exact memoInv_nil _ _)
+  have h1 := (evalK_sound (ops.withLk (run c ops s0 h).lk) (run c ops s0 h).body f1 (run c ops s0 h).memo (n, k) hinv).2 v hv
+  have h2 := (evalK_sound (ops.withLk (run c ops s0 h).lk) (run c ops s0 h).body f2 [] (n, k) (memoInv_nil _ _)).2 w hw
   exact Val.det h1 h2
+
+/-- a history without points edits is settled (the wave-1 alphabet). -/
+theorem settledFrom_false_of_noPoints {α : Type} (h : List (Op α)) (hn : ∀ op ∈ h, ∀ p f, op ≠ Op.setPoints p f) :
+    settledFrom false h = true := by
+  induction h with
+  | nil => rfl
+  | cons op rest ih =>
+      have hr : ∀ op ∈ rest, ∀ p f, op ≠ Op.setPoints p f := fun o ho => hn o (List.mem_cons_of_mem _ ho)
+      cases op with
+      | setPoints p f => exact absurd rfl (hn _ (List.mem_cons_self ..) p f)
+      | eval n k fuel => simp only [settledFrom, Bool.not_false, Bool.true_and]; exact ih hr
+      | setEq n e => simp only [settledFrom]; exact ih hr
+      | setInit n e => simp only [settledFrom]; exact ih hr
+      | addEq n e => simp only [settledFrom]; exact ih hr
+      | reset => simp only [settledFrom]; exact ih hr
 
 /-- Evaluations alone never break the invariant, whatever the Cfg says (the partial result). -/
 theorem C08_partial_evals (c : Cfg) {α : Type} (ops : Ops α) (s : St α) (hs : StInv ops s)
@@ -196,7 +264,7 @@ theorem C08_partial_evals (c : Cfg) {α : Type} (ops : Ops α) (s : St α) (hs :
   induction qs generalizing s with
   | nil => exact hs
   | cons q rest ih =>
-      exact ih _ ((evalK_sound ops s.body q.2.2 s.memo (q.1, q.2.1) hs).1)
+      exact ih _ ((evalK_sound (ops.withLk s.lk) s.body q.2.2 s.memo (q.1, q.2.1) hs).1)
 
 /-- **Repeating returns identical results**: once a value was returned, every later evaluation of
 the same key (with any positive fuel) returns the same value and leaves the memo unchanged. -/
@@ -237,11 +305,17 @@ theorem C08_requested_set (c : Cfg) {α : Type} (ops : Ops α) (s : St α) (hs :
     induction qs with
     | nil => intro s; rfl
     | cons q rest ih => intro s; simp only [List.map_cons, run, List.foldl_cons] at ih ⊢; rw [ih]; rfl
+  have lk_eq : ∀ (qs : List (Nat × Nat × Nat)) (s : St α),
+      (run c ops s (qs.map fun q => Op.eval q.1 q.2.1 q.2.2)).lk = s.lk := by
+    intro qs
+    induction qs with
+    | nil => intro s; rfl
+    | cons q rest ih => intro s; simp only [List.map_cons, run, List.foldl_cons] at ih ⊢; rw [ih]; rfl
   have i1 := C08_partial_evals c ops s hs qs1
   have i2 := C08_partial_evals c ops s hs qs2
-  have e1 := (evalK_sound ops _ f1 _ (n, k) i1).2 v h1
-  have e2 := (evalK_sound ops _ f2 _ (n, k) i2).2 w h2
-  rw [body_eq] at e1 e2
+  have e1 := (evalK_sound _ _ f1 _ (n, k) i1).2 v h1
+  have e2 := (evalK_sound _ _ f2 _ (n, k) i2).2 w h2
+  rw [body_eq, lk_eq] at e1 e2
   exact Val.det e1 e2
 
 /-! ### Negation witnesses for the stale-memo mechanisms (carrier `Int`) -/
@@ -261,7 +335,7 @@ def wStaleInit : List (Op Int) :=
 
 theorem C08_witness_stale_init (c : Cfg) (h : c.initialValueResetsCache = false) : ¬ C08_seq c := by
   intro hf
-  have := hf Int intOps wInit rfl wStaleInit 1 2 20 20 10 28
+  have := hf Int intOps wInit rfl wStaleInit (by decide) 1 2 20 20 10 28
   obtain ⟨i, a, f⟩ := c
   simp only at h; subst h
   cases a <;> cases f <;> exact absurd (this (by decide) (by decide)) (by decide)
@@ -272,7 +346,7 @@ def wStaleAdd : List (Op Int) :=
 
 theorem C08_witness_stale_add (c : Cfg) (h : c.addEquationResetsCache = false) : ¬ C08_seq c := by
   intro hf
-  have := hf Int intOps wInit rfl wStaleAdd 2 0 20 20 6 15
+  have := hf Int intOps wInit rfl wStaleAdd (by decide) 2 0 20 20 6 15
   obtain ⟨i, a, f⟩ := c
   simp only at h; subst h
   cases i <;> cases f <;> exact absurd (this (by decide) (by decide)) (by decide)
@@ -281,6 +355,233 @@ theorem C08_witness_stale_add (c : Cfg) (h : c.addEquationResetsCache = false) :
 equals the fresh value (stock 0 with init 10, inflow 2·dt per step; k = 2·s ⇒ k(t_2) = 28). -/
 example : query intOps (run ⟨true, true, true⟩ intOps wInit
     (wStaleInit ++ [.eval 1 2 20, .reset, .addEq 3 (.lit 7), .eval 1 1 20])) 1 2 20 = some 28 := by decide
+
+
+/-! ## (wave 2) total correctness: the memoised evaluation terminates whenever the fresh one does -/
+
+/-- completeness of the memoised evaluator at expression level: a big-step derivation of `v` bounds the fuel
+from which `evalE` (over `evalK`) returns `v`, from every memo that satisfies the invariant — hits only
+shorten the work, and they return the same value (`Val.det`). -/
+theorem evalE_complete {α : Type} (ops : Ops α) (body : Nat → Expr α) {e : Expr α} {k : Nat} {v : α}
+    (h : Val ops body e k v) :
+    ∃ f0, ∀ f, f0 ≤ f → ∀ m, MemoInv ops body m →
+      ∃ m', evalE ops (evalK ops body f) e k m = (m', some v) ∧ MemoInv ops body m' := by
+  induction h with
+  | lit x k => exact ⟨0, fun f _ m hm => ⟨m, rfl, hm⟩⟩
+  | ref n k v hv ih =>
+      obtain ⟨f0, h0⟩ := ih
+      refine ⟨f0 + 1, fun f hf m hm => ?_⟩
+      obtain ⟨f', rfl⟩ : ∃ f', f = f' + 1 := ⟨f - 1, by omega⟩
+      simp only [evalE, evalK]
+      cases hl : look m (n, k) with
+      | some w =>
+          have : w = v := Val.det (hm (n, k) w hl) hv
+          subst this
+          exact ⟨m, rfl, hm⟩
+      | none =>
+          obtain ⟨m1, he, hm1⟩ := h0 f' (by omega) m hm
+          simp only [he]
+          exact ⟨((n, k), v) :: m1, rfl, memoInv_cons hm1 hv⟩
+  | prev n k v hv ih =>
+      obtain ⟨f0, h0⟩ := ih
+      refine ⟨f0 + 1, fun f hf m hm => ?_⟩
+      obtain ⟨f', rfl⟩ : ∃ f', f = f' + 1 := ⟨f - 1, by omega⟩
+      simp only [evalE, evalK]
+      cases hl : look m (n, k) with
+      | some w =>
+          have : w = v := Val.det (hm (n, k) w hl) hv
+          subst this
+          exact ⟨m, rfl, hm⟩
+      | none =>
+          obtain ⟨m1, he, hm1⟩ := h0 f' (by omega) m hm
+          simp only [he]
+          exact ⟨((n, k), v) :: m1, rfl, memoInv_cons hm1 hv⟩
+  | bin op a b k x y _ _ iha ihb =>
+      obtain ⟨fa, ha⟩ := iha
+      obtain ⟨fb, hb⟩ := ihb
+      refine ⟨max fa fb, fun f hf m hm => ?_⟩
+      obtain ⟨m1, he1, hm1⟩ := ha f (by omega) m hm
+      obtain ⟨m2, he2, hm2⟩ := hb f (by omega) m1 hm1
+      exact ⟨m2, by simp only [evalE, he1, he2], hm2⟩
+  | max0 a k x _ ih =>
+      obtain ⟨fa, ha⟩ := ih
+      refine ⟨fa, fun f hf m hm => ?_⟩
+      obtain ⟨m1, he1, hm1⟩ := ha f hf m hm
+      exact ⟨m1, by simp only [evalE, he1], hm1⟩
+  | atStart0 a b v _ ih =>
+      obtain ⟨fa, ha⟩ := ih
+      refine ⟨fa, fun f hf m hm => ?_⟩
+      obtain ⟨m1, he1, hm1⟩ := ha f hf m hm
+      exact ⟨m1, by simp only [evalE, he1], hm1⟩
+  | atStartS a b k v _ ih =>
+      obtain ⟨fb, hb⟩ := ih
+      refine ⟨fb, fun f hf m hm => ?_⟩
+      obtain ⟨m1, he1, hm1⟩ := hb f hf m hm
+      exact ⟨m1, by simp only [evalE, he1], hm1⟩
+  | lookup p a k x _ ih =>
+      obtain ⟨fa, ha⟩ := ih
+      refine ⟨fa, fun f hf m hm => ?_⟩
+      obtain ⟨m1, he1, hm1⟩ := ha f hf m hm
+      exact ⟨m1, by simp only [evalE, he1], hm1⟩
+
+/-- **evalK_complete**: if the fresh value of `key` exists (the un-memoised recursion terminates), `memoize`
+returns it for every sufficiently large fuel, from every memo satisfying the invariant. -/
+theorem evalK_complete {α : Type} (ops : Ops α) (body : Nat → Expr α) (key : Key) (v : α)
+    (h : Fresh ops body key v) :
+    ∃ f0, ∀ f, f0 ≤ f → ∀ m, MemoInv ops body m → (evalK ops body f m key).2 = some v := by
+  obtain ⟨f0, h0⟩ := evalE_complete ops body (Val.ref key.1 key.2 v h)
+  refine ⟨f0, fun f hf m hm => ?_⟩
+  obtain ⟨m', he, _⟩ := h0 f hf m hm
+  simp only [evalE] at he
+  rw [he]
+
+/-- **Termination / total correctness of `C08_fresh`** (clause 1, completed): after any settled history, if the
+freshly built model yields `w` for `element(t_k)` (its recursion ends within some fuel), then the edited model
+with its memo also terminates — for every fuel from some bound on — and returns that same `w`. -/
+def C08_term (c : Cfg) : Prop :=
+  ∀ (α : Type) (ops : Ops α) (s0 : St α), s0.memo = [] →
+  ∀ (h : List (Op α)), settled h = true → ∀ (n k f2 : Nat) (w : α),
+    query ops { run c ops s0 h with memo := [] } n k f2 = some w →
+    ∃ f0, ∀ f1, f0 ≤ f1 → query ops (run c ops s0 h) n k f1 = some w
+
+theorem C08_fresh_terminates (c : Cfg) (hi : c.initialValueResetsCache = true)
+    (ha : c.addEquationResetsCache = true) : C08_term c := by
+  intro α ops s0 h0 h hset n k f2 w hw
+  have hinv : StInv ops (run c ops s0 h) :=
+    inv_run c hi ha ops h hset s0 (by simp only [StInv, h0]; exact memoInv_nil _ _)
+  have hF : Fresh (ops.withLk (run c ops s0 h).lk) (run c ops s0 h).body (n, k) w :=
+    (evalK_sound (ops.withLk (run c ops s0 h).lk) (run c ops s0 h).body f2 [] (n, k) (memoInv_nil _ _)).2 w hw
+  obtain ⟨f0, hf0⟩ := evalK_complete _ _ (n, k) w hF
+  exact ⟨f0, fun f1 hf1 => hf0 f1 hf1 _ hinv⟩
+
+/-! ### acyclic models: the fresh evaluation itself terminates -/
+
+/-- evaluating `e` at index `k` meets no stochastic term and no look-back before the start time. -/
+def SafeE {α : Type} : Expr α → Nat → Prop
+  | .lit _, _ => True
+  | .ref _, _ => True
+  | .prev _, k => 0 < k
+  | .bin _ a b, k => SafeE a k ∧ SafeE b k
+  | .max0 a, k => SafeE a k
+  | .atStart a _, 0 => SafeE a 0
+  | .atStart _ b, k + 1 => SafeE b (k + 1)
+  | .rnd, _ => False
+  | .lookup _ a, k => SafeE a k
+
+/-- **Acyclicity**: a measure on (element, time) keys that strictly decreases along every dependency the
+element's lambda requests (`depsE`: same-time references go down in rank, stock look-backs go down in time). -/
+structure Acyclic {α : Type} (body : Nat → Expr α) (μ : Key → Nat) : Prop where
+  safe : ∀ n k, SafeE (body n) k
+  desc : ∀ n k, ∀ key' ∈ depsE (body n) k, μ key' < μ (n, k)
+
+theorem val_of_deps {α : Type} (ops : Ops α) (body : Nat → Expr α) :
+    ∀ (e : Expr α) (k : Nat), SafeE e k → (∀ key' ∈ depsE e k, ∃ v, Fresh ops body key' v) →
+      ∃ v, Val ops body e k v := by
+  intro e
+  induction e with
+  | lit x => intro k _ _; exact ⟨x, Val.lit x k⟩
+  | ref n =>
+      intro k _ hd
+      obtain ⟨v, hv⟩ := hd (n, k) (by simp [depsE])
+      exact ⟨v, Val.ref n k v hv⟩
+  | prev n =>
+      intro k hs hd
+      cases k with
+      | zero => simp [SafeE] at hs
+      | succ k' =>
+          obtain ⟨v, hv⟩ := hd (n, k') (by simp [depsE])
+          exact ⟨v, Val.prev n k' v hv⟩
+  | bin op a b iha ihb =>
+      intro k hs hd
+      obtain ⟨x, hx⟩ := iha k hs.1 (fun key' hk => hd key' (by simp only [depsE, List.mem_append]; exact Or.inl hk))
+      obtain ⟨y, hy⟩ := ihb k hs.2 (fun key' hk => hd key' (by simp only [depsE, List.mem_append]; exact Or.inr hk))
+      exact ⟨_, Val.bin op a b k x y hx hy⟩
+  | max0 a iha =>
+      intro k hs hd
+      obtain ⟨x, hx⟩ := iha k hs hd
+      exact ⟨_, Val.max0 a k x hx⟩
+  | atStart a b iha ihb =>
+      intro k hs hd
+      cases k with
+      | zero =>
+          obtain ⟨x, hx⟩ := iha 0 hs hd
+          exact ⟨x, Val.atStart0 a b x hx⟩
+      | succ k' =>
+          obtain ⟨x, hx⟩ := ihb (k' + 1) hs hd
+          exact ⟨x, Val.atStartS a b k' x hx⟩
+  | rnd => intro k hs _; simp [SafeE] at hs
+  | lookup p a iha =>
+      intro k hs hd
+      obtain ⟨x, hx⟩ := iha k hs hd
+      exact ⟨_, Val.lookup p a k x hx⟩
+
+/-- in an acyclic model every (element, time) has a fresh value: the un-memoised recursion terminates. -/
+theorem val_total_aux {α : Type} (ops : Ops α) (body : Nat → Expr α) (μ : Key → Nat) (hA : Acyclic body μ) :
+    ∀ (m : Nat) (key : Key), μ key < m → ∃ v, Fresh ops body key v := by
+  intro m
+  induction m with
+  | zero => intro key h; exact absurd h (Nat.not_lt_zero _)
+  | succ m ih =>
+      intro key h
+      obtain ⟨n, k⟩ := key
+      exact val_of_deps ops body (body n) k (hA.safe n k)
+        (fun key' hk => ih key' (Nat.lt_of_lt_of_le (hA.desc n k key' hk) (Nat.le_of_lt_succ h)))
+
+theorem val_total {α : Type} (ops : Ops α) (body : Nat → Expr α) (μ : Key → Nat) (hA : Acyclic body μ) :
+    ∀ key : Key, ∃ v, Fresh ops body key v :=
+  fun key => val_total_aux ops body μ hA (μ key + 1) key (Nat.lt_succ_self _)
+
+/-- **C08_total**: on an acyclic model (acyclic under the FINAL definitions), after any settled history both the
+edited model with its memo and the freshly built model terminate, and with the same value. -/
+theorem C08_total (c : Cfg) (hi : c.initialValueResetsCache = true) (ha : c.addEquationResetsCache = true)
+    {α : Type} (ops : Ops α) (s0 : St α) (h0 : s0.memo = []) (h : List (Op α)) (hset : settled h = true)
+    (μ : Key → Nat) (hA : Acyclic (run c ops s0 h).body μ) (n k : Nat) :
+    ∃ v f0, ∀ f, f0 ≤ f →
+      query ops (run c ops s0 h) n k f = some v ∧
+      query ops { run c ops s0 h with memo := [] } n k f = some v := by
+  have hinv : StInv ops (run c ops s0 h) :=
+    inv_run c hi ha ops h hset s0 (by simp only [StInv, h0]; exact memoInv_nil _ _)
+  obtain ⟨v, hv⟩ := val_total (ops.withLk (run c ops s0 h).lk) _ μ hA (n, k)
+  obtain ⟨f0, hf0⟩ := evalK_complete _ _ (n, k) v hv
+  exact ⟨v, f0, fun f hf => ⟨hf0 f hf _ hinv, hf0 f hf [] (memoInv_nil _ _)⟩⟩
+
+/-- non-vacuity of `Acyclic`: the stock-and-converter model of the witnesses (`s' = 2·dt`, `k = 2·s`), with
+`μ (n, t) = 2·t + n`. -/
+def wBody : Nat → Expr Int := fun n =>
+  if n = 0 then .atStart (.lit 1) (.bin 0 (.prev 0) (.bin 2 (.lit 1) (.lit 2))) else .bin 2 (.ref 0) (.lit 2)
+
+example : Acyclic wBody (fun key => 2 * key.2 + key.1) := by
+  constructor
+  · intro n k
+    by_cases hn : n = 0
+    · subst hn; cases k <;> simp [wBody, SafeE]
+    · simp [wBody, hn, SafeE]
+  · intro n k key' hk
+    by_cases hn : n = 0
+    · subst hn
+      cases k with
+      | zero => simp [wBody, depsE] at hk
+      | succ k' => simp [wBody, depsE] at hk; subst hk; dsimp only; omega
+    · simp [wBody, hn, depsE] at hk; subst hk; dsimp only; omega
+
+/-! ### points edits that are NOT settled are stale (what `settled` excludes, shown on the model; the harness
+shows the same on the real code: `model.points` is a plain dict) -/
+
+/-- `k = LOOKUP(3, "p0")`; `k(t_0)`; `model.points["p0"] = <other table>`; `k(t_0)` again: the memo answers 3, a
+fresh model 103. -/
+theorem points_unsettled_stale :
+    query intOps (run ⟨true, true, true⟩ intOps wInit
+        [.setEq 1 (.lookup 0 (.lit 3)), .eval 1 0 20, .setPoints 0 (fun x => x + 100)]) 1 0 20 = some 3 ∧
+    query intOps { run ⟨true, true, true⟩ intOps wInit
+        [.setEq 1 (.lookup 0 (.lit 3)), .eval 1 0 20, .setPoints 0 (fun x => x + 100)] with memo := [] } 1 0 20
+      = some 103 := by decide
+
+/-- … and settled by a `reset_cache` it is fresh again (non-vacuity of the points clause of `C08_seq`). -/
+example : settled ([.setEq 1 (.lookup 0 (.lit 3)), .eval 1 0 20, .setPoints 0 (fun x => x + 100), .reset] : List (Op Int)) = true ∧
+    query intOps (run ⟨true, true, true⟩ intOps wInit
+        [.setEq 1 (.lookup 0 (.lit 3)), .eval 1 0 20, .setPoints 0 (fun x => x + 100), .reset]) 1 0 20 = some 103 := by
+  decide
+
 
 /-! ## Part (b): the worker threads of one run, every schedule -/
 
@@ -593,21 +894,29 @@ example : (exec ⟨true, true, true⟩ wSys (initC [] [[(0, 0)], [(0, 0)]]) wSch
 
 /-! ## The full property -/
 
-def C08_full (c : Cfg) : Prop := C08_seq c ∧ C08_conc c
+/-- never stale (partial correctness, `C08_seq`) ∧ the edited model terminates whenever the fresh one does, with
+the same value (`C08_term`, wave 2) ∧ never ambiguous (`C08_conc`). -/
+def C08_full (c : Cfg) : Prop := C08_seq c ∧ C08_term c ∧ C08_conc c
 
 theorem C08_full_of_good (c : Cfg) (h : c.good = true) : C08_full c := by
   simp only [Cfg.good, Bool.and_eq_true] at h
-  exact ⟨C08_fresh c h.1.1 h.1.2, C08_stochastic_threads c h.2⟩
+  exact ⟨C08_fresh c h.1.1 h.1.2, C08_fresh_terminates c h.1.1 h.1.2, C08_stochastic_threads c h.2⟩
 
 theorem C08_witness_stale_init_full (c : Cfg) (h : c.initialValueResetsCache = false) : ¬ C08_full c :=
   fun hf => C08_witness_stale_init c h hf.1
 theorem C08_witness_stale_add_full (c : Cfg) (h : c.addEquationResetsCache = false) : ¬ C08_full c :=
   fun hf => C08_witness_stale_add c h hf.1
 theorem C08_witness_race_full (c : Cfg) (h : c.memoizeFirstStoreWins = false) : ¬ C08_full c :=
-  fun hf => C08_witness_race c h hf.2
+  fun hf => C08_witness_race c h hf.2.2
 
 #print axioms C08_full_of_good
 #print axioms C08_fresh
+#print axioms C08_fresh_terminates
+#print axioms evalK_complete
+#print axioms val_total
+#print axioms C08_total
+#print axioms points_unsettled_stale
+#print axioms settledFrom_false_of_noPoints
 #print axioms C08_stochastic_threads
 #print axioms C08_deterministic_threads
 #print axioms C08_partial_evals
